@@ -354,6 +354,16 @@ func initTSTable(fileSystem fs.FileSystem, rootPath string, p common.Position,
 			tst.l.Info().Str("path", filepath.Join(rootPath, snapshotName(id))).Msg("delete unreadable snapshot file")
 			fileSystem.MustRMAll(filepath.Join(rootPath, snapshotName(id)))
 		}
+		// Manifests older than the loaded one are superseded; the garbage
+		// cleaner's list does not survive a restart, so a crash between
+		// publishing manifest N+1 and unlinking manifest N would leave N on
+		// disk forever.
+		for _, id := range loadedSnapshots {
+			if id < epoch {
+				tst.l.Info().Str("path", filepath.Join(rootPath, snapshotName(id))).Msg("delete superseded snapshot file")
+				fileSystem.MustRMAll(filepath.Join(rootPath, snapshotName(id)))
+			}
+		}
 		return &tst, epoch
 	}
 	for _, id := range loadedParts {
